@@ -33,6 +33,48 @@ def _load_known(pid):
 
 vcheck.load_known = _load_known
 
+# Axioms that may appear in the Print Assumptions output of C07 (none is declared by this development: all four come
+# with Coq's standard library and are what Flocq's real-number rounding operator `round` is built on).  A theorem that
+# depends on anything else makes the proof step fail.
+AXIOMS_ALLOWED = [
+    "ClassicalDedekindReals.sig_forall_dec",                    # Coq.Reals: classical Dedekind reals
+    "ClassicalDedekindReals.sig_not_dec",                       # Coq.Reals
+    "FunctionalExtensionality.functional_extensionality_dep",   # Coq.Reals (Cauchy -> Dedekind quotient)
+    "Classical_Prop.classic",                                   # Coq.Logic, used by Flocq.Core.Raux (mag, the binary exponent of a real)
+]
+
+_orig_prove = vcheck.prove
+
+
+def _prove(pid, dirname, *a, **kw):
+    """vcheck.prove + for C07: every axiom named in a Print Assumptions block must be in AXIOMS_ALLOWED;
+    the names found are recorded in the evidence (coverage.print_assumptions.axioms_used / axioms_allowed)"""
+    res = _orig_prove(pid, dirname, *a, **kw)
+    if pid == "C07" and res.get("assumptions"):
+        import re
+        used = set()
+        nblocks = 0
+        # (consecutive Print Assumptions outputs are not separated by blank lines, so one captured block may hold
+        # several "Axioms:" lists and "Closed under the global context" lines; an axiom is printed as "name : type"
+        # or as "name" alone followed by its indented type)
+        for blk in res["assumptions"].get("axiom_blocks", []):
+            nblocks += 1 + blk.count("Axioms:")
+            for m in re.finditer(r"^([A-Za-z_][\w.']*)[ \t]*(?::(?!=)|$)", blk, flags=re.M):
+                if m.group(1) not in ("Axioms", "Warning", "Error", "File", "COQC", "COQDEP"):
+                    used.add(m.group(1))
+        res["assumptions"]["axioms_used"] = sorted(used)
+        res["assumptions"]["axioms_allowed"] = list(AXIOMS_ALLOWED)
+        res["assumptions"]["theorems_depending_on_axioms"] = nblocks
+        extra = sorted(used - set(AXIOMS_ALLOWED))
+        if extra:
+            res["ok"] = False
+            res["discharged"] = 0
+            res["failed"].append("axiom not in props/c07.py AXIOMS_ALLOWED: " + ", ".join(extra))
+    return res
+
+
+vcheck.prove = _prove
+
 
 def hx(b):
     return "".join("%02x" % x for x in b) if b else "-"
@@ -91,24 +133,46 @@ class C07(DiffProperty):
             "non-trivial = every case (each line holds in-range and out-of-range sources); distinct = distinct case text")
     modelled = ("mptcore/convert/{data_convert_int,data_convert_float,value_convert,data_converter,convert_int,convert_number,convert_string,"
                 "cdouble,cfloat,cldouble}.c and types/iterator_consume.c transcribed in coq/C07/ConvModel.v and ConvFloat.v (float sources, dyadic); libc strtoimax/strtoumax "
-                "modelled (glibc 2.36); strtof/strtod/strtold are an oracle whose answer is part of the case; isgraph/isspace as ASCII tables ('C' locale); "
-                "non-scalar branches of mpt_convert_string (type 0, 'k', 's', char vector, value format) and the interface/array converters are not modelled")
+                "modelled (glibc 2.36); strtof/strtod/strtold are an oracle whose answer (end pointer, errno == ERANGE, value) is part of the case and re-checked by the harness; "
+                "the library's own tests on that answer (ERANGE && (+HUGE_VAL || -HUGE_VAL), end == src, white space) are transcribed; isgraph/isspace as ASCII tables ('C' locale); "
+                "non-scalar branches of mpt_convert_string (type 0, 'k', 's', char vector, value format), the optional range argument of mpt_cfloat/cdouble/cldouble "
+                "and the interface/array converters are not modelled")
     trusted = ["harness/c07_conv.c reads the destination back as the target type from an exact-size heap block pre-filled with 0xA5/0x5A",
-               "libc strtof/strtod/strtold (value, consumed length, ERANGE) and the host FPU's integer->float instructions are oracles/assumed IEEE-754 round-to-nearest-even; 'C' locale",
-               "LP64: long = int64, char signed, long double = x87 80 bit in 16 bytes"]
-    level_text = ("proof: Coq theorems over unbounded Z for ALL source values: C07_int_int_exact_or_refused (every integer source type x every integer/char/long "
+               "libc strtof/strtod/strtold (value, consumed length, ERANGE) are an oracle; the host FPU's conversions (cvtsd2ss, fld/fstp, cvtsi2ss/sd, fild) are assumed IEEE-754 "
+               "round-to-nearest-even and are compared bit by bit with the model (proved to be Flocq's round ... ZnearestE) in every run; 'C' locale",
+               "LP64: long = int64, char signed, long double = x87 80 bit in 16 bytes",
+               "axioms (none declared here; Print Assumptions of the 7 theorems about real numbers): ClassicalDedekindReals.sig_forall_dec, ClassicalDedekindReals.sig_not_dec, "
+               "FunctionalExtensionality.functional_extensionality_dep (Coq.Reals) and Classical_Prop.classic (used by Flocq's mag); Flocq 4 (Core) as installed under coq/user-contrib; "
+               "props/c07.py fails the proof step if any other axiom appears"]
+    axioms_allowed = AXIOMS_ALLOWED
+    level_text = ("proof: Coq theorems over unbounded Z for ALL source values / bit patterns / texts: C07_int_int_exact_or_refused (every integer source type x every integer/char/long "
                   "target: an accepted conversion stores exactly the source value, which lies in the target's range, and reports the target's size), "
                   "C07_query_same_verdict, C07_never_faults, C07_value_convert_exact / C07_iterator_consume_exact (dispatch layers), C07_text_int_exact "
                   "(strtoimax/strtoumax model + width checks: the value is the number denoted by exactly the consumed characters and in range; over-long "
                   "numerals, negated unsigned numerals refused; likewise C07_text_uint_exact, C07_text_wrapper_exact, C07_convert_number_exact, "
-                  "C07_convert_string_exact), C07_int_float_exact_when_representable / _correctly_rounded / _stays_finite (integer -> float: exact when "
-                  "representable else a p-bit neighbour within half an ulp, ties to even, never infinite); "
+                  "C07_convert_string_exact); integer -> float: always accepted, the source itself is converted (also through value_convert/iterator_consume), the value is "
+                  "Flocq's round radix2 (FLT_exp emin p) ZnearestE of the integer (C07_int_float_is_IEEE_nearest_even; plus the Z-only _exact_when_representable / "
+                  "_correctly_rounded / _stays_finite) and the bit pattern compared with the FPU decodes to it (C07_int_float_destination); float -> float "
+                  "(binary32/binary64/x87 extended, all 9 pairs, every bit pattern): the model's rounding is IEEE round-to-nearest-even of the exact value "
+                  "(C07_float_round_is_IEEE_nearest_even against Flocq; C07_float_round_nearest_even_Z: representable, none closer, ties to even, stated on integers and "
+                  "closed under the global context), a finite source is REFUSED exactly when its rounded magnitude exceeds FLT_MAX/DBL_MAX/LDBL_MAX and otherwise accepted "
+                  "with that value (C07_float_float_rounded_or_refused), the bytes written decode to it (C07_float_float_destination, C07_float_bits_roundtrip), representable "
+                  "values and every widening are exact (C07_float_float_exact_when_representable, C07_float_widening_exact), inf/NaN handed on; float -> integer is never offered "
+                  "(C07_float_int_never_offered: always BadType, no truncation exists); text -> float: libc is an oracle, the library's logic around it is proved "
+                  "(C07_text_float_cases/_accepts/_string_accepts: success only with libc's own consumed length and value; _overflow_refused/_badvalue_only_overflow: "
+                  "ERANGE with +HUGE_VAL or -HUGE_VAL refused, nothing else; _query_same); "
                   "the model is tied to the code on every run by differential execution (exhaustive for 8/16 bit sources) under ASan/UBSan")
     level_note = ("trusted: Coq kernel; hand transcription of the converters (validated by the correspondence run, not verified); extraction and OCaml driver; "
-                  "harness; libc float parsing and the FPU are oracles; float->float narrowing and text->float are covered by correspondence with an executable "
-                  "dyadic model/oracle, not by a theorem about IEEE rounding of arbitrary reals. Theorems are closed under the global context (no axioms). "
+                  "harness; that the FPU implements IEEE-754 round-to-nearest-even (the proved model is compared bit by bit with the hardware in every run, incl. "
+                  "subnormals, ties, overflow boundary; NaN only as a class, payloads not modelled); libc float parsing stays an oracle: that strtof/strtod/strtold return the "
+                  "correctly rounded value of the characters they consume is NOT proved (only the library's use of their answer is), nor is the optional range argument of "
+                  "mpt_cfloat/cdouble/cldouble modelled; text -> 'c' and query = perform for mpt_value_convert are correspondence/executable-spec only. "
+                  "29 theorems are closed under the global context; the 7 theorems that mention real numbers (Flocq's round) depend on the standard-library axioms "
+                  "ClassicalDedekindReals.sig_forall_dec, ClassicalDedekindReals.sig_not_dec, FunctionalExtensionality.functional_extensionality_dep and Classical_Prop.classic "
+                  "(no axiom is declared by this development; the Z-only theorem C07_float_round_nearest_even_Z states nearest-even without them). "
                   "Known finding left in the code: mpt_convert_string on white-space-only text reports consumed characters without converting.")
-    technique = "Coq case analysis + lia over Z on a transcribed mechanism model (incl. a Gallina strtoimax/strtoumax) + differential correspondence check"
+    technique = ("Coq case analysis + lia/nia over Z on a transcribed mechanism model (incl. a Gallina strtoimax/strtoumax and a dyadic IEEE rounding), "
+                 "equivalence of that rounding with Flocq's generic round/ZnearestE on FLT formats, + differential correspondence check")
     assumptions = ["'C' locale", "LP64 / x86-64 type sizes", "iterator passed to mpt_iterator_consume behaves (value stays valid until advance)"]
 
     # ------------------------------------------------------------------ case structure
